@@ -3,19 +3,24 @@
 // is a child of `fragmenting` and sees the private fields of `DefragQueue`.
 //
 // Contract structure (see DESIGN.md §3/C17):
-//   wf(q)        representation invariant of a non-idle reassembly queue
-//   covered(q,i) position i of the assembly buffer was written by a frame of the packet that is
-//                currently being reassembled (derived from recv_mask, never stored)
-//   R(i)         ghost: "assembly_buffer[i] is a byte that an accepted frame of the current packet
-//                carried at packet position i".  Coupling invariant: covered(q,i) ==> R(i).
+//   wf(q)          representation invariant of a non-idle reassembly queue
+//   covered(q,k,i) position i = k*w + r (r < w) of the assembly buffer was written by an accepted
+//                  frame of the packet that is currently being reassembled (derived from recv_mask
+//                  and the last-frame extent, never stored)
+//   R(i)           ghost: "assembly_buffer[i] is a byte that an accepted frame of the current
+//                  packet carried at packet position i".  Coupling invariant: covered ==> R.
 // Each step is proved from an ARBITRARY wf state (all scalar fields symbolic) for an ARBITRARY
-// frame and an ARBITRARY byte position i / mask bit k, so the universally quantified statements
-// hold by symbolic choice of i,k and the history statement by induction over accepted frames.
+// frame and an ARBITRARY byte position / mask bit, so the universally quantified statements hold
+// by symbolic choice and the history statement by induction over accepted frames.
+//
+// The specification side is written without division (positions are given as k*w + r): every
+// `/` and `%` in the solver query then comes from the code under contract. Symbolic 64-bit
+// division is what dominates the solver time here, hence also the case split into one harness
+// per (frame kind, pre-state shape); the union of the cases is every state and every frame.
 //
 // Byte contents are not symbolic (two symbolic 64 KiB arrays + memcpy of symbolic length exhaust
-// 60 GB in CBMC): the ghost R is updated from the *contract* of the single write in
-// `ingest_frame` (`assembly_buffer[off..off+len].copy_from_slice(fragment)`), which is checked
-// separately by `c17_copy_range_b` on a bounded fragment length.
+// 60 GB in CBMC): the ghost R is updated from the contract of the single write in `ingest_frame`
+// (`assembly_buffer[off..off+len].copy_from_slice(fragment)`, std), see units/C17.py assumptions.
 #![allow(dead_code)]
 
 use super::*;
@@ -58,16 +63,17 @@ fn wf(q: &DefragQueue) -> bool {
         }
     }
     // (d) expected frame count known <=> both known; it counts the frames below the last frame
-    //     plus the last frame itself
+    //     plus the last frame itself, and the last frame starts on a window boundary:
+    //     (e - 1) * w == l
     let both = q.final_packet_size.is_some() && q.frame_window_size.is_some();
     if q.expected_frames.is_some() != both {
         return false;
     }
     if let (Some(e), Some(w), Some(l)) = (q.expected_frames, q.frame_window_size, q.last_frame_offset) {
-        if (l as usize) % w != 0 {
+        if e < 1 || e > MAX_FRAMES {
             return false;
         }
-        if e != (l as usize) / w + 1 {
+        if (e - 1) * w != l as usize {
             return false;
         }
     }
@@ -85,15 +91,11 @@ fn wf_bit(q: &DefragQueue, k: usize) -> bool {
     }
 }
 
-/// Position `i` of the buffer has been written by an accepted frame of the current packet.
-fn covered(q: &DefragQueue, i: usize) -> bool {
-    if let Some(w) = q.frame_window_size {
-        if w != 0 {
-            let k = i / w;
-            if k < LAST_BIT && bit(&q.recv_mask, k) {
-                return true;
-            }
-        }
+/// Position `i` (which lies in window `k`, i.e. i = k*w + r with r < w, whenever a window size
+/// is known) has been written by an accepted frame of the current packet.
+fn covered(q: &DefragQueue, k: usize, i: usize) -> bool {
+    if q.frame_window_size.is_some() && k < LAST_BIT && bit(&q.recv_mask, k) {
+        return true;
     }
     if bit(&q.recv_mask, LAST_BIT) {
         if let (Some(l), Some(f)) = (q.last_frame_offset, q.final_packet_size) {
@@ -147,26 +149,19 @@ fn assume_pre_case(q: &DefragQueue, pre: u8) {
     }
 }
 
-/// Result of one symbolic `ingest_frame` step, with the borrow of the queue released.
-struct Step {
-    q: DefragQueue,
-    k: usize,
-    off: usize,
-    len: usize,
-    is_last: bool,
-    so_pre: u64,
-    idle_pre: bool,
-    is_ok: bool,
-    emitted: bool,
-    p_len: usize,
-    p_is_buf_prefix: bool,
-    p_so: u64,
+/// kind: 0 = any frame, 1 = middle frames only, 2 = last frames only.
+fn assume_kind(h: &proto::FragmentFrameHeader, kind: u8) {
+    if kind == 1 {
+        kani::assume(!h.is_last());
+    }
+    if kind == 2 {
+        kani::assume(h.is_last());
+    }
 }
 
-/// One step of `DefragQueue::ingest_frame` from an ARBITRARY wf state with an ARBITRARY frame
-/// (`kind`: 0 = any frame, 1 = middle frames only, 2 = last frames only -- a case split that
-/// keeps each solver query small; the union is every frame).
-fn any_step(kind: u8, pre: u8) -> Step {
+/// Inductive step, invariant part: no panic, wf re-established, emission shape, at most once,
+/// from an ARBITRARY wf state with an ARBITRARY frame of the given kind.
+fn ingest_wf(kind: u8, pre: u8, expect_emit: bool) {
     let mut q = any_queue();
     assume_pre_case(&q, pre);
     let k: usize = kani::any();
@@ -179,15 +174,11 @@ fn any_step(kind: u8, pre: u8) -> Step {
     let len: usize = kani::any();
     kani::assume(len <= MAX_PACKET_SIZE);
     let header = any_header();
-    if kind == 1 {
-        kani::assume(!header.is_last());
-    }
-    if kind == 2 {
-        kani::assume(header.is_last());
-    }
+    assume_kind(&header, kind);
     let frame = FragmentFrameRef { header, fragment: &backing[..len] };
     let so_pre = q.stream_offset;
     let idle_pre = q.idle;
+    let w_pre = q.frame_window_size;
     let buf_ptr = q.assembly_buffer.as_ptr();
     let res = q.ingest_frame(&frame);
     // `res` borrows q mutably; extract what we need and drop the borrow
@@ -197,38 +188,31 @@ fn any_step(kind: u8, pre: u8) -> Step {
         Err(_) => (false, false, 0, buf_ptr, 0),
     };
     drop(res);
-    Step {
-        q, k, off: header.frame_offset as usize, len, is_last: header.is_last(), so_pre, idle_pre,
-        is_ok, emitted, p_len, p_is_buf_prefix: p_ptr == buf_ptr, p_so,
-    }
-}
 
-/// Inductive step, invariant part: no panic, wf re-established, emission shape, at most once.
-fn ingest_wf(kind: u8, pre: u8, expect_emit: bool) {
-    let s = any_step(kind, pre);
-    let q = &s.q;
-    if expect_emit {
-        kani::cover!(s.is_ok && s.emitted, "emission reachable");
-    }
-    kani::cover!(s.is_ok && !s.emitted, "partial ingest reachable");
-    kani::cover!(!s.is_ok && !s.idle_pre && !q.idle, "rejection that keeps the queue busy reachable");
-    kani::cover!(!s.is_ok && !s.idle_pre && q.idle, "rejection that abandons the packet reachable");
+    kani::cover!(!expect_emit || (is_ok && emitted), "emission reachable");
+    kani::cover!(is_ok && !emitted, "partial ingest reachable");
+    kani::cover!(!is_ok && !idle_pre && !q.idle, "rejection that keeps the queue busy reachable");
+    kani::cover!(!is_ok && !idle_pre && q.idle, "rejection that abandons the packet reachable");
     // an idle queue never accepts
-    if s.idle_pre {
-        assert!(!s.is_ok, "C17.idle: idle queue accepted a frame");
+    if idle_pre {
+        assert!(!is_ok, "C17.idle: idle queue accepted a frame");
     }
     // the stream offset of a queue changes only through init
-    assert!(q.stream_offset == s.so_pre, "C17.so: ingest changed the stream offset");
+    assert!(q.stream_offset == so_pre, "C17.so: ingest changed the stream offset");
     // invariant re-established
-    assert!(wf(q), "C17.wf: representation invariant broken by ingest_frame");
-    assert!(wf_bit(q, s.k), "C17.wf_bit: mask/window invariant broken by ingest_frame");
+    assert!(wf(&q), "C17.wf: representation invariant broken by ingest_frame");
+    assert!(wf_bit(&q, k), "C17.wf_bit: mask/window invariant broken by ingest_frame");
+    // the window size of a packet never changes once known
+    if !q.idle && w_pre.is_some() {
+        assert!(q.frame_window_size == w_pre, "C17.window: window size changed while reassembling");
+    }
     // emission: exactly the announced size, at most once (queue idle after)
-    if s.emitted {
+    if emitted {
         assert!(q.idle, "C17.once: queue still accepting after emission");
-        assert!(s.p_so == s.so_pre, "C17.attr: packet attributed to another stream offset");
-        assert!(s.p_is_buf_prefix, "C17.ptr: payload is not the assembly buffer prefix");
-        assert!(s.p_len <= MAX_PACKET_SIZE, "C17.len: payload longer than the buffer");
-        assert!(Some(s.p_len) == q.final_packet_size, "C17.size: payload length is not the announced size");
+        assert!(p_so == so_pre, "C17.attr: packet attributed to another stream offset");
+        assert!(p_ptr == buf_ptr, "C17.ptr: payload is not the assembly buffer prefix");
+        assert!(p_len <= MAX_PACKET_SIZE, "C17.len: payload longer than the buffer");
+        assert!(Some(p_len) == q.final_packet_size, "C17.size: payload length is not the announced size");
     }
 }
 
@@ -250,35 +234,36 @@ fn c17_ingest_wf_last() {
     ingest_wf(2, 4, true);
 }
 
-/// Inductive step, coverage part, at an arbitrary byte position `i`: the coupling invariant
-/// `covered(q,i) ==> R(i)` is preserved and every emitted byte satisfies R.
+/// Inductive step, coverage part, at an arbitrary byte position: the coupling invariant
+/// `covered ==> R` is preserved and every emitted byte satisfies R.
 fn ingest_cover(kind: u8, pre: u8, expect_emit: bool) {
-    // arbitrary byte position and its ghost; the pre-state coupling is assumed inside a
-    // copy of any_step's state, so it is re-stated here on the pre-state via a closure-free
-    // two-phase construction: choose i first, then constrain the queue.
-    let i: usize = kani::any();
-    kani::assume(i < MAX_PACKET_SIZE);
-    let r_pre: bool = kani::any(); // R(i) in the pre-state
     let mut q = any_queue();
     assume_pre_case(&q, pre);
+    kani::assume(!q.idle); // an idle queue rejects every frame (proved in ingest_wf)
     kani::assume(wf(&q));
-    if let Some(w) = q.frame_window_size {
-        if w != 0 {
-            kani::assume(wf_bit(&q, i / w));
-        }
-    }
-    kani::assume(q.idle || !covered(&q, i) || r_pre); // coupling invariant at i
     let backing = zero_box();
     let len: usize = kani::any();
     kani::assume(len <= MAX_PACKET_SIZE);
     let header = any_header();
-    if kind == 1 {
-        kani::assume(!header.is_last());
-    }
-    if kind == 2 {
-        kani::assume(header.is_last());
-    }
+    assume_kind(&header, kind);
     let off = header.frame_offset as usize;
+
+    // arbitrary byte position i = k*W + r (r < W) where W is the window size of the packet: the
+    // queue's if known, else the one this frame would establish (for a last frame arriving at a
+    // queue without a window size no middle frame exists and any decomposition serves).
+    let window = match q.frame_window_size {
+        Some(w) => w,
+        None => if header.is_last() || len == 0 { 1 } else { len },
+    };
+    let k: usize = kani::any();
+    let r: usize = kani::any();
+    kani::assume(k <= MAX_PACKET_SIZE && r < window);
+    let i = k * window + r;
+    kani::assume(i < MAX_PACKET_SIZE);
+    kani::assume(wf_bit(&q, k));
+    let r_pre: bool = kani::any(); // R(i) in the pre-state
+    kani::assume(q.idle || !covered(&q, k, i) || r_pre); // coupling invariant at i
+
     let frame = FragmentFrameRef { header, fragment: &backing[..len] };
     let res = q.ingest_frame(&frame);
     let (is_ok, emitted, p_len) = match &res {
@@ -291,15 +276,17 @@ fn ingest_cover(kind: u8, pre: u8, expect_emit: bool) {
     let in_frame = off <= i && i < off + len;
     let r_post = if is_ok && in_frame { true } else { r_pre };
     if !q.idle {
-        assert!(!covered(&q, i) || r_post, "C17.coupling: position counted as received without a frame of this packet");
+        // the decomposition of i stays valid: the window did not change
+        assert!(q.frame_window_size.is_none() || q.frame_window_size == Some(window),
+                "C17.window: window size changed while reassembling");
+        assert!(!covered(&q, k, i) || r_post,
+                "C17.coupling: position counted as received without a frame of this packet");
     }
     if emitted && i < p_len {
         assert!(r_post, "C17.intact: emitted byte was not received in a frame of this packet");
     }
-    if expect_emit {
-        kani::cover!(emitted && i < p_len, "emitted byte reachable");
-    }
-    kani::cover!(is_ok && !emitted && covered(&q, i), "covered byte after partial ingest reachable");
+    kani::cover!(!expect_emit || (emitted && i < p_len), "emitted byte reachable");
+    kani::cover!(is_ok && !emitted && covered(&q, k, i), "covered byte after partial ingest reachable");
 }
 
 #[kani::proof]
@@ -321,13 +308,14 @@ fn c17_ingest_cover_middle_f1w1() {
 #[kani::proof]
 fn c17_ingest_cover_last_w0() {
     // no window size known: nothing can be emitted
-    ingest_cover(2, 0, false);
+    let pre: u8 = if kani::any() { 0 } else { 1 };
+    ingest_cover(2, pre, false);
 }
 
 #[kani::proof]
 fn c17_ingest_cover_last_w1() {
     // (final size known => duplicate last frame => rejected; covered by the same harness)
-    let pre: u8 = if kani::any() { 2 } else if kani::any() { 1 } else { 3 };
+    let pre: u8 = if kani::any() { 2 } else { 3 };
     ingest_cover(2, pre, true);
 }
 
@@ -348,40 +336,36 @@ fn c17_init_resets() {
     assert!(q.stream_offset == header.stream_offset, "C17.init: stream offset not taken");
     assert!(wf(&q), "C17.init: wf not established");
     assert!(wf_bit(&q, k), "C17.init: wf_bit not established");
-    assert!(!covered(&q, i), "C17.init: byte of the previous packet still counted as received");
+    assert!(!covered(&q, k, i), "C17.init: byte of the previous packet still counted as received");
 }
 
 // ---------------------------------------------------------------------------------------------
 // Honest sender: Fragmenter::send contract, and completeness of reassembly for its frames
 // ---------------------------------------------------------------------------------------------
 
-fn verif_frag_metrics() -> FragmentMetrics {
-    FragmentMetrics {
-        packets_processed: prometheus::IntCounter::new("a", "a").unwrap(),
-        frames_sent: prometheus::IntCounter::new("b", "b").unwrap(),
-    }
+/// The prometheus counters cannot be constructed under Kani (label maps need getrandom, the
+/// registry needs futexes). `send` only bumps two counters, so the counter methods are stubbed to
+/// no-ops and the metrics value itself is never touched (it is forgotten, not dropped).
+fn noop_inc<P: prometheus::core::Atomic>(_c: &prometheus::core::GenericCounter<P>) {}
+fn noop_inc_by<P: prometheus::core::Atomic>(_c: &prometheus::core::GenericCounter<P>, _v: P::T) {}
+
+fn untouched_frag_metrics() -> FragmentMetrics {
+    // SAFETY (harness only): never read, cloned or dropped; inc/inc_by are stubbed.
+    unsafe { core::mem::MaybeUninit::<FragmentMetrics>::zeroed().assume_init() }
 }
 
-/// Frame `j` of the honest fragmentation of an `n`-byte packet with payload size `ps`.
-fn honest_cnt(n: usize, ps: usize) -> usize {
-    n.div_ceil(ps)
-}
-fn honest_off(j: usize, ps: usize) -> usize {
-    j * ps
-}
-fn honest_len(j: usize, n: usize, ps: usize) -> usize {
-    core::cmp::min(ps, n - j * ps)
-}
-
-/// `Fragmenter::send` produces exactly the honest frames, in order: they partition `data`,
-/// all but the last have length `mtu - HEADER` >= MIN_PAYLOAD_SIZE, only the last carries LAST,
-/// offsets fit u16, at most MAX_FRAMES frames. Loop bounded by MAX_FRAMES (operand width):
-/// unwinding assertions on, so complete for all 1 <= n <= 65535 and all MTUs.
+/// `Fragmenter::send` produces exactly the honest frames, in order: frame j has offset j*ps and
+/// length min(ps, n - j*ps) and is a sub-slice of `data` at that offset, ps = mtu - HEADER >=
+/// MIN_PAYLOAD_SIZE, only the last carries LAST, offsets fit u16, at most MAX_FRAMES frames.
+/// Loop bounded by MAX_FRAMES (operand width): unwinding assertions on, so complete for all
+/// 1 <= n <= 65535 and all MTUs.
 #[kani::proof]
 #[kani::unwind(258)]
+#[kani::stub(prometheus::core::GenericCounter::inc, noop_inc)]
+#[kani::stub(prometheus::core::GenericCounter::inc_by, noop_inc_by)]
 fn c17_send_contract() {
     let mtu: usize = kani::any();
-    let mut fr = Fragmenter { mtu: 0, stream_offset: kani::any(), metrics: verif_frag_metrics() };
+    let mut fr = Fragmenter { mtu: 0, stream_offset: kani::any(), metrics: untouched_frag_metrics() };
     fr.set_mtu(mtu);
     assert!(fr.mtu >= MIN_MTU && fr.mtu <= MAX_MTU, "C17.mtu: set_mtu outside [MIN_MTU, MAX_MTU]");
     let ps = fr.mtu - proto::FragmentFrameHeader::SIZE;
@@ -391,57 +375,43 @@ fn c17_send_contract() {
     kani::assume(n >= 1 && n <= MAX_PACKET_SIZE);
     let data = &backing[..n];
     let base = data.as_ptr() as usize;
-    let cnt = honest_cnt(n, ps);
     // one symbolic frame index observed (universal by symbolic choice)
     let watch: usize = kani::any();
-    kani::assume(watch < cnt);
+    kani::assume(watch < MAX_FRAMES);
     let mut seen = 0usize;
-    let mut watched_ok = false;
+    let mut total = 0usize;
+    let mut watched: Option<(u64, usize, usize, usize, bool)> = None;
     let r = fr.send(data, |f: FragmentFrameRef<'_>| {
         if seen == watch {
-            let j = seen;
-            watched_ok = f.header.stream_offset == so
-                && f.header.frame_offset as usize == honest_off(j, ps)
-                && f.fragment.len() == honest_len(j, n, ps)
-                && (f.fragment.as_ptr() as usize) == base + honest_off(j, ps)
-                && f.header.is_last() == (j == cnt - 1)
-                && (j == cnt - 1 || f.fragment.len() >= MIN_PAYLOAD_SIZE)
-                && f.fragment.len() >= 1;
+            watched = Some((f.header.stream_offset, f.header.frame_offset as usize, f.fragment.len(),
+                            f.fragment.as_ptr() as usize, f.header.is_last()));
         }
+        total += f.fragment.len();
         seen += 1;
     });
     assert!(r == Ok(so), "C17.send.ret: send did not return the packet's stream offset");
-    assert!(seen == cnt, "C17.send.count: number of frames is not ceil(n / payload)");
-    assert!(cnt <= MAX_FRAMES, "C17.send.max: more than MAX_FRAMES frames");
-    assert!(watched_ok, "C17.send.frame: frame is not the honest frame (offset/len/slice/LAST)");
+    assert!(seen >= 1 && seen <= MAX_FRAMES, "C17.send.max: frame count outside 1..=MAX_FRAMES");
+    assert!(total == n, "C17.send.total: fragment lengths do not add up to the packet length");
+    assert!((seen - 1) * ps < n && n <= seen * ps, "C17.send.count: number of frames is not ceil(n / payload)");
+    if let Some((w_so, w_off, w_len, w_ptr, w_last)) = watched {
+        let j = watch;
+        assert!(w_so == so, "C17.send.frame: wrong stream offset");
+        assert!(w_off == j * ps, "C17.send.frame: offset is not j * payload");
+        assert!(w_ptr == base + j * ps, "C17.send.frame: fragment is not data[j*payload..]");
+        assert!(w_last == (j == seen - 1), "C17.send.frame: LAST flag not exactly on the last frame");
+        if j == seen - 1 {
+            assert!(w_len == n - j * ps && w_len >= 1, "C17.send.frame: last fragment length");
+        } else {
+            assert!(w_len == ps && w_len >= MIN_PAYLOAD_SIZE, "C17.send.frame: middle fragment length");
+        }
+    } else {
+        assert!(watch >= seen, "C17.send.frame: watched frame not produced");
+    }
     assert!(fr.stream_offset == so.wrapping_add(n as u64), "C17.send.so: stream offset not advanced by n");
-    kani::cover!(cnt == MAX_FRAMES, "max frames reachable");
-    kani::cover!(cnt == 1, "single frame reachable");
-}
-
-/// Queue state that is consistent with having received a subset of the honest frames of an
-/// (n, ps) packet (cnt >= 2; single-frame packets take the fast path in recv_fallible).
-fn honest_state(q: &DefragQueue, n: usize, ps: usize) -> bool {
-    let cnt = honest_cnt(n, ps);
-    if q.idle || !wf(q) {
-        return false;
-    }
-    if let Some(w) = q.frame_window_size {
-        if w != ps {
-            return false;
-        }
-    }
-    if let Some(f) = q.final_packet_size {
-        if f != n || q.last_frame_offset != Some(((cnt - 1) * ps) as u16) {
-            return false;
-        }
-    }
-    true
-}
-
-/// mask ⊆ honest set, checked at symbolic bit k
-fn honest_bit(q: &DefragQueue, cnt: usize, k: usize) -> bool {
-    !(k < LAST_BIT && k >= cnt - 1 && bit(&q.recv_mask, k))
+    kani::cover!(seen == MAX_FRAMES, "max frames reachable");
+    kani::cover!(seen == 1, "single frame reachable");
+    kani::cover!(watched.is_some() && watch > 0 && watch == seen - 1, "watched last frame reachable");
+    core::mem::forget(fr);
 }
 
 /// Mask with exactly the honest bits of a `cnt`-frame packet set: 0..cnt-2 and LAST.
@@ -452,19 +422,44 @@ fn full_mask(cnt: usize) -> [BitmaskType; BITMASK_ENTRY_COUNT] {
     [m0, m1 | (1u128 << 127)]
 }
 
+/// Queue state that is consistent with having received a subset of the honest frames of the
+/// packet with `cnt` >= 2 frames of payload `ps` and a last frame of `tail` bytes
+/// (single-frame packets take the fast path in recv_fallible).
+fn honest_state(q: &DefragQueue, cnt: usize, ps: usize, tail: usize) -> bool {
+    if q.idle || !wf(q) {
+        return false;
+    }
+    if let Some(w) = q.frame_window_size {
+        if w != ps {
+            return false;
+        }
+    }
+    if let Some(f) = q.final_packet_size {
+        if f != (cnt - 1) * ps + tail || q.last_frame_offset != Some(((cnt - 1) * ps) as u16) {
+            return false;
+        }
+    }
+    true
+}
+
 /// Completeness step: a not-yet-received honest frame is always accepted, keeps the state
 /// honest, and the packet is emitted exactly when it was the last missing frame -- in any
 /// arrival order (the pre-state is an arbitrary honest subset of the packet's frames).
+/// case: 0 = middle frame & last not yet received, 1 = first middle frame after the last frame,
+/// 2 = further middle frame after the last frame, 3 = the last frame.
 fn honest_step(case: u8) {
+    // honest packet: cnt frames, payload size ps = mtu - HEADER, last frame of 1..=ps bytes
     let mtu: usize = kani::any();
     kani::assume(mtu >= MIN_MTU && mtu <= MAX_MTU);
     let ps = mtu - proto::FragmentFrameHeader::SIZE;
-    let n: usize = kani::any();
-    kani::assume(n >= 1 && n <= MAX_PACKET_SIZE);
-    let cnt = honest_cnt(n, ps);
-    kani::assume(cnt >= 2);
+    let cnt: usize = kani::any();
+    kani::assume(cnt >= 2 && cnt <= MAX_FRAMES);
+    let tail: usize = kani::any();
+    kani::assume(tail >= 1 && tail <= ps);
+    let n = (cnt - 1) * ps + tail;
+    kani::assume(n <= MAX_PACKET_SIZE);
     let mut q = any_queue();
-    kani::assume(honest_state(&q, n, ps));
+    kani::assume(honest_state(&q, cnt, ps, tail));
     let full = full_mask(cnt);
     // only honest bits are set
     kani::assume(q.recv_mask[0] & !full[0] == 0 && q.recv_mask[1] & !full[1] == 0);
@@ -473,20 +468,19 @@ fn honest_step(case: u8) {
     let j: usize = kani::any();
     kani::assume(j < cnt);
     let is_last = j == cnt - 1;
-    // case split: 0 = middle frame & last not yet received, 1 = middle frame & last received,
-    // 2 = the last frame
     match case {
         0 => kani::assume(!is_last && q.final_packet_size.is_none()),
-        1 => kani::assume(!is_last && q.final_packet_size.is_some()),
+        1 => kani::assume(!is_last && q.final_packet_size.is_some() && q.frame_window_size.is_none()),
+        2 => kani::assume(!is_last && q.final_packet_size.is_some() && q.frame_window_size.is_some()),
         _ => kani::assume(is_last),
     }
     let jbit = if is_last { LAST_BIT } else { j };
     kani::assume(!bit(&q.recv_mask, jbit)); // not yet received
     let backing = zero_box();
-    let len = honest_len(j, n, ps);
+    let len = if is_last { tail } else { ps };
     let header = proto::FragmentFrameHeader {
         stream_offset: q.stream_offset,
-        frame_offset: honest_off(j, ps) as u16,
+        frame_offset: (j * ps) as u16,
         flags: if is_last { FragmentFlags::LAST as u16 } else { 0 },
     };
     let frame = FragmentFrameRef { header, fragment: &backing[..len] };
@@ -504,11 +498,9 @@ fn honest_step(case: u8) {
     let complete = mask_post == full;
     assert!(emitted == complete, "C17.honest.emit: emission does not coincide with the last missing honest frame");
     if !emitted {
-        assert!(honest_state(&q, n, ps), "C17.honest.inv: honest state not preserved");
+        assert!(honest_state(&q, cnt, ps, tail), "C17.honest.inv: honest state not preserved");
     }
-    if case != 0 {
-        kani::cover!(emitted, "honest emission reachable");
-    }
+    kani::cover!(case == 0 || emitted, "honest emission reachable");
     kani::cover!(!emitted, "honest partial ingest reachable");
     kani::cover!(cnt == MAX_FRAMES, "256-frame packet reachable");
 }
@@ -519,11 +511,16 @@ fn c17_honest_step_mid_f0() {
 }
 
 #[kani::proof]
-fn c17_honest_step_mid_f1() {
+fn c17_honest_step_mid_f1w0() {
     honest_step(1);
 }
 
 #[kani::proof]
-fn c17_honest_step_last() {
+fn c17_honest_step_mid_f1w1() {
     honest_step(2);
+}
+
+#[kani::proof]
+fn c17_honest_step_last() {
+    honest_step(3);
 }
